@@ -9,9 +9,11 @@ SCR="$(mktemp -d /tmp/vmut.XXXXXX)"
 trap 'rm -rf "$SCR"' EXIT
 rsync -a --exclude _build --exclude .git /repo/ "$SCR/repo/"
 if ! (cd "$SCR/repo" && patch -p1 -s < "$PATCH"); then echo "PATCH-FAILED $PATCH"; exit 2; fi
+EV="$VERIF/evidence/$PROP.json"; [ -f "$EV" ] && cp "$EV" "$SCR/ev.json"
 out=$(cd "$VERIF" && VERIF_REPO="$SCR/repo" ./run_check.sh "$PROP" "$TIER" 2>&1); rc=$?
 # never keep replay files / evidence produced against a mutant
-(cd "$VERIF" && git checkout -q -- evidence 2>/dev/null; git clean -fdq replays 2>/dev/null)
+if [ -f "$SCR/ev.json" ]; then cp "$SCR/ev.json" "$EV"; else rm -f "$EV"; fi
+echo "$out" | grep -o "replay=[^ ]*" | cut -d= -f2 | grep "/replays/" | xargs -r rm -f
 echo "$out" | grep -E "^(VIOLATION|OK|BROKEN|failure)" | cut -c1-300
 if [ $rc -eq 1 ] && echo "$out" | grep -q "^VIOLATION property=$PROP"; then echo "CAUGHT $(basename "$PATCH") by $PROP/$TIER"; exit 0; fi
 if [ $rc -eq 0 ]; then echo "SURVIVED $(basename "$PATCH") vs $PROP/$TIER"; exit 1; fi
